@@ -443,6 +443,11 @@ impl AssocBoundsGroup {
         unsized_params.extend(other.1.iter().flat_map(|unsized_param| {
             let sized_bound = (unsized_param.clone(), TraitBound(syn::parse_quote!(Sized)));
 
+            if !substitutions.is_expressible(&sized_bound) {
+                // NOTE: Param of `other` that can't be named by the impl group
+                return Vec::new();
+            }
+
             substitutions
                 .substitute(&sized_bound)
                 .map(|(unsized_param, _)| unsized_param)
